@@ -52,7 +52,7 @@ def replay(ck, obj):
     if obj.get("regen", {}).get("cases"):
         cases_stage(ck, 1, first=obj["regen"]["run"], tag="one")
         return
-    if obj.get("kind") == "gp-replay" or (obj.get("regen") or {}).get("gp"):
+    if obj.get("kind") == "gp-replay" or (obj.get("regen") or {}).get("gp") or (obj.get("regen") or {}).get("gpevo"):
         gpcheck.replay(ck, obj)
         return
     vmcheck.replay_one(ck, obj)
